@@ -485,7 +485,7 @@ def _structural(ctx) -> None:
         n += 1
         for d in leaves(st.data):
             parts = []
-            stack = [d]
+            stack = [strip_seq(st.it, d)]
             while stack:
                 t = stack.pop()
                 if t[0] == "bin" and t[1] == "Add":
